@@ -63,17 +63,39 @@ def norm_model(op, ans):
 SKIP_MODEL = {"unsupported", "fuel", "se-unsupported", "se-fuel", "de2-unsupported", "no-case", "badjson"}
 SKIP_REAL = {"noop", "nocompile", "notype", "noops", "timeout"}
 
+def nested_default_case(c):
+    """the dump has a default (member state or type-level) in which a struct value omits a member that has its own
+    default: the emitted default function writes `Default::default()` there (known finding C06-nested-default,
+    refuted in Lean: C06Findings.default_value_full_false), so compiled code and `Serde.deStruct`/`dflt` (which use
+    `de d`; equal to the emitted expression inside WFDefault by C06.default_value_partial) legitimately differ."""
+    if getattr(c, "_nested_default", None) is not None: return c._nested_default
+    from props.c06 import omits_defaulted_member
+    r = False
+    try:
+        for tid, e in (c.dump or {}).get("entries", {}).items():
+            if e.get("default") is not None and omits_defaulted_member(c.dump, tid, e["default"]): r = True; break
+            pss = [e.get("props", [])] + [v["details"].get("struct", []) for v in e.get("variants", []) if isinstance(v.get("details"), dict)]
+            for ps in pss:
+                for p in ps:
+                    if isinstance(p.get("state"), dict) and omits_defaulted_member(c.dump, p["type_id"], p["state"]["default"]): r = True
+            if r: break
+    except Exception: r = False
+    c._nested_default = r
+    return r
+
 def compare(b, cases, requests):
     """returns dict(real=[], model=[], disagreements=[(request, real, model)], skipped_model=n, skipped_real=n)"""
     real = b.run(requests)
     model, badir = model_answers(cases, requests)
-    dis = []; sm = sr = 0; status = {}
+    dis = []; sm = sr = 0; status = {}; known_c06 = 0
     for rq, ra, ma in zip(requests, real, model):
         op = rq[2]
         nr, nm = norm_real(op, ra), norm_model(op, ma)
         status[nr[0]] = status.get(nr[0], 0) + 1
         if nm[0] in SKIP_MODEL or nm[0].startswith("se-") and nm[0] != "se-err": sm += 1; continue
         if nr[0] in SKIP_REAL: sr += 1; continue
-        if nr != nm: dis.append((rq, ra, ma))
-    return {"real": real, "model": model, "disagreements": dis, "skipped_model": sm, "skipped_real": sr,
+        if nr != nm:
+            if nested_default_case(rq[0]): known_c06 += 1
+            else: dis.append((rq, ra, ma))
+    return {"real": real, "model": model, "disagreements": dis, "skipped_model": sm, "skipped_real": sr, "attributed_C06_nested_default": known_c06,
             "bad_ir": badir, "real_status": status}
